@@ -341,7 +341,10 @@ class CurveEngine:
                     ctx.probe("layout-weights-only")
         except Exception as e:  # noqa
             if layout == "independent":
-                raise HarnessError("cannot build a curve of the plan: %r" % (e,))
+                # Curve(valid clamped knot vector, npts points[, positive weights]) is the start of every history the
+                # property quantifies over; when even that raises, the curve cannot "evaluate on its whole interval"
+                ctx.fail("I1-not-constructible", "create", "Curve(knots, points, weights) with valid data raised %s: %s" % (type(e).__name__, e))
+                return
             # building from another curve of the world can fail when that curve is unusual (no control
             # points, custom result types); creation is history, not a judged step
             ctx.count("create_skipped:" + type(e).__name__)
